@@ -59,6 +59,27 @@ def guarded_calls(f):
     return out
 
 
+def guarded_nodes(f, pred):
+    """(node, [conditions holding there]) for every expression / statement node of f's body that satisfies pred"""
+    base = [t for t in (f.get("requires"), f.get("trequires")) if t]
+    out = []
+
+    def walk(n, conds):
+        if n.get("k") == "if":
+            c = n.get("src") or astx.show(n.get("c"), 200)
+            for key, cs in (("c", conds), ("init", conds), ("then", conds + [c]), ("else", conds + ["!(" + c + ")"])):
+                if n.get(key) is not None:
+                    walk(n[key], cs)
+            return
+        if pred(n):
+            out.append((n, list(conds)))
+        for _k, ch in _children(n):
+            walk(ch, conds)
+    if f.get("body") is not None:
+        walk(f["body"], base)
+    return out
+
+
 def check_mem_shortcut(f):
     """[(verdict, message)] for every bytewise primitive called in f"""
     res = []
@@ -332,3 +353,56 @@ def positive_controls(chk, D, rules):
             bad = bool(r) and any(not ok for _n, ok, _m in r)
             if r is None or bad != want:
                 chk.analysis_broken("FIELDCAST: the control fixture::%s was not %s (%s)" % (nm, "reported" if want else "proved", r))
+
+
+# ---- TYPEDDEF ------------------------------------------------------------------------------------------------------------------
+TYPED_ANY = re.compile(r"\b(plus|minus|multiplies|divides|modulus|equal_to|not_equal_to|less|greater|less_equal|greater_equal)\s*<\s*([A-Za-z_]\w*)\s*>")
+
+
+def check_typed_default(f):
+    """None when f passes no functor object built on the spot; else [(call, functor type, message)] for every functor fixed to
+    one type parameter of f while the elements it will be applied to are reached through *another* type parameter (an
+    iterator): `plus<T>` converts each element to T before adding, `init + *first` does not."""
+    if f.get("body") is None:
+        return None
+    tps = [tp["n"] for tp in (f.get("tparams") or []) if tp.get("k") == "type"]
+    seen = False
+    out = []
+    for x in astx.all_exprs(f, into_lambdas=True):
+        if x.get("k") != "call":
+            continue
+        for a in x["a"]:
+            a0 = astx.strip_casts(a)
+            if a0 is None or a0.get("k") != "construct":
+                continue
+            m = TYPED_ANY.search(a0.get("ty", "") or "")
+            bare = re.search(r"\b(plus|minus|multiplies|divides|modulus|equal_to|not_equal_to|less|greater|less_equal|greater_equal)\b", a0.get("ty", "") or "")
+            if bare:
+                seen = True
+            if not m:
+                continue
+            fixed = m.group(2)
+            others = [t for t in tps if t != fixed]
+            if fixed in tps and others:
+                out.append((x, a0.get("ty", ""), "`%s` is handed `%s`, a functor fixed to the parameter type `%s`; the operands come through `%s` "
+                            "and need not be of that type - each is converted to `%s` before the operation, where the standard "
+                            "applies the operator to the operands as they are (a transparent functor, `%s<>`)" % (
+                                astx.show(x, 60), a0.get("ty", ""), fixed, ", ".join(others), fixed, m.group(1))))
+    return out if seen else None
+
+
+def typed_default_area(chk, db, prefixes, rule="TYPEDDEF"):
+    n = 0
+    for f in db.funcs:
+        if f.get("body") is None or not any(f["file"].startswith(p) for p in prefixes):
+            continue
+        r = check_typed_default(f)
+        if r is None:
+            continue
+        n += 1
+        construct = astx.sig(f)
+        chk.instance(rule)
+        chk.obligation(rule, construct, not r)
+        for call, _ty, msg in r[:2]:
+            chk.violation(rule, construct, "operand-converted", "%s: %s" % (astx.loc(f, call), msg), {"where": astx.loc(f)})
+    return n
